@@ -27,6 +27,35 @@ SHARD_LIMIT = {"quick": 900, "thorough": 14400}
 FORMATS = [".fits", ".bin", "", ".x.gz", "a b", "<&>", ".fits.z", ".z"]  # *.z: INDI's convention for compressed payloads
 
 
+
+def scenario(fn):
+    """an exception escaping from the library into the scenario (a device assignment that raises because of a
+    connection's state, a send that raises) is a violation of "never stall a link", not a harness error"""
+    import functools
+    import inspect
+
+    sig_ = inspect.signature(fn)
+
+    @functools.wraps(fn)
+    def wrapper(*a, **kw):
+        try:
+            return fn(*a, **kw)
+        except Exception as e:  # noqa
+            from mc.core.e2e import HandshakeFailed
+
+            if isinstance(e, HandshakeFailed) or type(e).__name__ == "TooManyHangs":
+                raise
+            from mc import lib
+
+            bound = sig_.bind(*a, **kw)
+            fails = bound.arguments.get("fails")
+            if fails is None:
+                raise
+            fails.append(("raises", "scenario=%s,%s" % (fn.__name__, lib.exc_site(e)), "%s%r: %r" % (fn.__name__, tuple(x for x in a if not isinstance(x, (list, dict)))[:4], e)))
+
+    return wrapper
+
+
 def payload(n, seed):
     return bytes(((i * 13 + seed * 7 + (i >> 8)) % 256) for i in range(n))
 
@@ -69,6 +98,7 @@ def blob_of(n, seed):
     return BLOB(payload(n, seed), FORMATS[n % len(FORMATS)])
 
 
+@scenario
 def d1_driver_to_client(n, seed, delivery, fails, d):
     """driver publishes; library Client must hold identical bytes; ordinary traffic follows"""
     from mc.core import e2e
@@ -106,6 +136,7 @@ def d1_driver_to_client(n, seed, delivery, fails, d):
         w.close()
 
 
+@scenario
 def d2_driver_to_raw(n, seed, policy, delivery, fails, d):
     from mc.core import e2e
 
@@ -162,6 +193,7 @@ DAMAGED = {
 }
 
 
+@scenario
 def d2_after_damaged_upload(n, seed, damage, fails):
     """a client uploads a damaged / partial BLOB (refused or partly applied by the device); what the DRIVER publishes
     afterwards still reaches every connection that enabled BLOBs, bit-exact, and ordinary traffic goes on"""
@@ -208,6 +240,7 @@ def d2_after_damaged_upload(n, seed, damage, fails):
         w.close()
 
 
+@scenario
 def d2_policy_sequence(n, seed, seq, fails):
     """one raw connection changes its mind: the LAST enableBLOB decides what it receives"""
     from mc.core import e2e
@@ -256,6 +289,7 @@ def d2_policy_sequence(n, seed, seq, fails):
         w.close()
 
 
+@scenario
 def d2_large_paused(n, seed, fails):
     """a BLOB larger than any slice size goes to a raw connection whose flow control is paused right after the first
     write, while an ordinary update is published behind it; after resuming both must arrive intact and in order"""
@@ -303,6 +337,7 @@ def d2_large_paused(n, seed, fails):
         w.close()
 
 
+@scenario
 def d1_reuse(n, seed, fails):
     """the driver keeps ONE BLOB object (a frame buffer), changes its contents and publishes it again"""
     from indi.device.values import BLOB
@@ -328,6 +363,7 @@ def d1_reuse(n, seed, fails):
         w.close()
 
 
+@scenario
 def d3_client_to_driver(n, seed, delivery, fails, d):
     from mc.core import e2e
 
@@ -368,6 +404,7 @@ def d3_client_to_driver(n, seed, delivery, fails, d):
         w.close()
 
 
+@scenario
 def partial_case(n, seed, cut_frac, fails):
     """BLOB connection stalls at a cut inside the BLOB message; control traffic continues; then resumes"""
     from mc.core import e2e
